@@ -12,8 +12,8 @@ NSIM = {"quick": 150, "thorough": 3000}
 # Rolled-back transactions of these operations trip open findings (memory is
 # advanced inside the transaction: F10, F11, F14, F17). Only the property that
 # owns the finding generates them; the others leave those histories out.
-ALLRB = '{"Extend", "SetSynced", "ChangePriv", "ChangePub", "ConvertWO"}'
-NOROLLBACK = {"C03": ALLRB, "C04": ALLRB, "C05": '{"Extend", "SetSynced"}', "C08": "{}", "C10": ALLRB}
+ALLRB = '{"Extend", "SetSynced", "ChangePriv", "ChangePub", "ConvertWO", "NewScope"}'
+NOROLLBACK = {"C03": ALLRB, "C04": ALLRB, "C05": '{"Extend", "SetSynced", "NewScope"}', "C08": "{}", "C10": ALLRB}
 
 
 def run(prop, tier, seed, scratch, replay=None):
@@ -55,6 +55,10 @@ def run(prop, tier, seed, scratch, replay=None):
     if sim2["errors"]:
         raise vlib.Broken("simulation run (sim2) failed: %s" % sim2["errors"][:3])
     sim["ntraces"] += sim2["ntraces"]
+    # "scope" stage: a custom key scope (NewScopedKeyManager) that does not exist until it is created and committed
+    sctr = scratch.path("scope.ndjson")
+    scope = vlib.run_tlc(scratch, "AddrMgr.tla", "MC_AddrMgr_scope_quick.cfg", out_traces=sctr, tag="scope", cfg_subst=dict(subst), timeout=600)
+    vlib.require_tlc_ok(scope, "exhaustive exploration (custom scope)")
     every = EVERY_C10[tier] if prop == "C10" else EVERY[tier][fam]
     vlib.run_driver(drv, ["-in", traces, "-out", report, "-prop", prop, "-seed", seed,
                           "-every", every, "-offset", seed % every, "-workers", vlib.NCPU], timeout=7200)
@@ -62,8 +66,18 @@ def run(prop, tier, seed, scratch, replay=None):
     report2 = scratch.path("report2.json")
     vlib.run_driver(drv, ["-in", simtr, "-out", report2, "-prop", prop, "-seed", seed, "-workers", vlib.NCPU], timeout=7200)
     rep2 = vlib.load_report(report2)
+    report3 = scratch.path("report3.json")
+    severy = 1
+    vlib.run_driver(drv, ["-in", sctr, "-out", report3, "-prop", prop, "-seed", seed, "-every", severy, "-offset", seed % severy,
+                          "-workers", vlib.NCPU], timeout=7200)
+    rep3 = vlib.load_report(report3)
     res.add_report(rep)
     res.add_report(rep2)
+    res.add_report(rep3)
+    for k in ("traces", "checks", "steps", "distinct_nontrivial"):
+        rep2[k] += rep3[k]
+    for k, v in (rep3.get("extra") or {}).items():
+        rep2["extra"][k] = rep2["extra"].get(k, 0) + v
     res.coverage = {
         "states": bfs["distinct"], "transitions": bfs["generated"],
         "traces_validated_against_impl": rep["traces"] + rep2["traces"],
@@ -77,6 +91,8 @@ def run(prop, tier, seed, scratch, replay=None):
                        % (cfg, bfs["depth"], "every" if every == 1 else "every %d-th" % every, seed, sim["ntraces"]),
         "replayed_steps": rep["steps"] + rep2["steps"], "simulated_behaviours": sim["ntraces"],
         "tlc_bfs_wall_s": bfs["wall_s"], "checker_cmd": bfs["cmd"],
+        "custom_scope_stage": {"cfg": "MC_AddrMgr_scope_quick.cfg", "states": scope["distinct"], "transitions": scope["generated"],
+                               "behaviours_replayed": rep3["traces"]},
         "diverged_behaviours": rep["extra"].get("diverged_behaviours", 0) + rep2["extra"].get("diverged_behaviours", 0),
     }
     res.coverage["transitions_per_operation"] = cov
